@@ -147,13 +147,86 @@ def run_shard(spec):
             continue
         if _hetero(a) or _hetero(b):
             col.count("pairs_with_heterogeneous_array")
+        if r.random() < 0.15:
+            # the same documents with one side held in nbformat's mapping type (what nbformat.read and nbdime's own
+            # patch return) and the other in plain dicts
+            import nbformat
+            if r.random() < 0.5:
+                a = nbformat.from_dict(a)
+            else:
+                b = nbformat.from_dict(b)
+            col.count("pairs_with_mixed_mapping_types")
         judge(col, a, b, "random", False)
+    # chains: the document a diff starts from is itself the RESULT of an earlier patch (incremental use: nbdime's
+    # patch rebuilds containers as its own mapping type, so the two documents then mix mapping types), and the
+    # target is a further edit of the earlier target
+    for _ in range(max(100, spec["random"] // 6)):
+        a = G.rand_value(r, 0)
+        if not isinstance(a, (dict, list)):
+            continue
+        targeted = r.random() < 0.4
+        if targeted:
+            # an object with a null member somewhere in the document; step 1 changes ANOTHER member of that object
+            # (so patch rebuilds it), step 2 drops the null member and adds a differently named one
+            import copy
+            obj = {"n": None, "v": r.randrange(9), "w": r.choice(["s", [1], {"d": 1}])}
+            a = {"top": a, "o": obj} if r.random() < 0.5 else [a, {"in": obj}, 1]
+            b1 = copy.deepcopy(a)
+            o1 = b1["o"] if isinstance(b1, dict) else b1[1]["in"]
+            o1["v"] = o1["v"] + 1
+        else:
+            b1 = G.rand_edit(r, a)
+        try:
+            from .. import nbd
+            p = nbd.patch(a, nbd.diff(a, b1))
+        except Exception:
+            continue            # judged on its own above
+        if targeted:
+            c = copy.deepcopy(b1)
+            o2 = c["o"] if isinstance(c, dict) else c[1]["in"]
+            del o2["n"]
+            o2[r.choice(["m", "n2", "z"])] = r.choice([None, 0, "x"])
+        else:
+            c = G.rand_edit(r, b1)
+            if r.random() < 0.5:
+                c = null_key_swap(r, c)
+        if type(c) is type(b1):
+            judge(col, p, c, "chained", False)
+            col.count("chained_pairs_from_patch_results")
     # long documents: hundreds of items / keys / lines, so that indices, counts and integer VALUES leave the
     # small-number range (CPython caches ints up to 256; an identity comparison only shows beyond it)
     for _ in range(max(20, spec["random"] // 50)):
         a, b = long_pair(r)
         judge(col, a, b, "long", False)
     return col.result()
+
+
+def null_key_swap(r, v):
+    """somewhere in v, an object's null-valued member is dropped and a differently named member added (same size)"""
+    import copy
+    v = copy.deepcopy(v)
+    objs = []
+
+    def walk(x):
+        if isinstance(x, dict):
+            objs.append(x)
+            for y in x.values():
+                walk(y)
+        elif isinstance(x, list):
+            for y in x:
+                walk(y)
+    walk(v)
+    r.shuffle(objs)
+    for o in objs:
+        nulls = [k for k, y in o.items() if y is None]
+        if nulls:
+            del o[r.choice(nulls)]
+            o["new_member_%d" % r.randrange(9)] = r.choice([None, 0, "x"])
+            return v
+    if objs:
+        o = objs[0]
+        o["was_null"] = None        # next chain step may drop it
+    return v
 
 
 def long_pair(r):
